@@ -27,6 +27,7 @@ func c10(c *Ctx) {
 		c.Unres("C10", podCtlPkg+" / "+podENICtlPkg, "package not loaded")
 		return
 	}
+	ruleShadow(c, "C10.R12", "the whole module")
 	c10R1(c)
 	c10R2(c)
 	c10R3(c)
